@@ -90,6 +90,9 @@ def gen_cases(tier, seed):
     structured.append(['banner', S2C, ''])
     structured.append(['hostkey_swap', S2C, 'trusted'])
     structured.append(['hostkey_swap', S2C, 'untrusted'])
+    # the same host key in a different byte encoding (K_S is hashed as sent)
+    for v in ('e_pad', 'n_pad', 'both_pad', 'trailing'):
+        structured.append(['hostkey_reencode', S2C, v])
     for v in ('zero', 'one', 'pm1', 'p', 'pp1', 'empty', 'short', 'long',
               'allzero', 'allff'):
         structured.append(['range', C2S, v])
@@ -323,6 +326,9 @@ class HandshakeMITM:
             elif e[0] == 'hostkey_swap' and is_kexmsg and d == S2C:
                 new = self._swap_hostkey(payload)
                 self.covered = True
+            elif e[0] == 'hostkey_reencode' and is_kexmsg and d == S2C:
+                new = self._reencode_hostkey(payload, e[2])
+                self.covered = True
             elif e[0] == 'range' and is_kexmsg:
                 new = self._range(payload, d, e[2])
                 self.covered = True
@@ -369,6 +375,33 @@ class HandshakeMITM:
             return None
         self.detail = {'swapped_hostkey_in': payload[0]}
         return payload[:1] + R.sstr(self.alt) + rest
+
+    def _reencode_hostkey(self, payload, how):
+        """Same RSA key, other bytes: redundant leading zero on e / n, or
+           bytes after n inside the key blob"""
+
+        if payload[0] not in (31, 33):
+            return None
+        try:
+            r = R.Reader(payload, 1)
+            ks = r.str()
+            rest = r.rest()
+            k = R.Reader(ks)
+            name = k.str()
+            if name != b'ssh-rsa':
+                return None
+            ebytes, nbytes = k.str(), k.str()
+        except R.RefError:
+            return None
+        if how in ('e_pad', 'both_pad'):
+            ebytes = b'\x00' + ebytes
+        if how in ('n_pad', 'both_pad'):
+            nbytes = b'\x00' + nbytes
+        new_ks = R.sstr(name) + R.sstr(ebytes) + R.sstr(nbytes)
+        if how == 'trailing':
+            new_ks += b'\x00\x00\x00\x00'
+        self.detail = {'reencoded_hostkey': how}
+        return payload[:1] + R.sstr(new_ks) + rest
 
     def _range(self, payload, d, which):
         """Replace the peer-chosen public value (e / f / Q_C / Q_S)"""
@@ -424,6 +457,8 @@ def _run_edit(case, mon, viol):
 
     async def main(loop):
         hk = apps.host_key('ssh-ed25519', 0)
+        if case['edit'][0] == 'hostkey_reencode':
+            hk = apps.host_key('ssh-rsa', 0, key_size=2048)
         alt = apps.host_key('ssh-ed25519', 1)
         trusted = [hk.export_public_key().decode()]
         if case['edit'][0] == 'hostkey_swap' and case['edit'][2] == 'trusted':
